@@ -52,6 +52,9 @@ func Defects(t M) []Mutation {
 		add("version-too-old", Path{"cdiVersion"}, "set", pv, inv)
 		add("version-too-old", Path{"cdiVersion"}, "set", "0.3.0", inv)
 	}
+	// versions older than anything a Spec can require (the minimum is never below 0.3.0)
+	add("version-too-old", Path{"cdiVersion"}, "set", "0.1.0", inv)
+	add("version-too-old", Path{"cdiVersion"}, "set", "0.2.0", inv)
 	add("version-exact-minimum", Path{"cdiVersion"}, "set", min, val)
 	add("kind-missing", Path{"kind"}, "del", nil, inv)
 	for _, k := range []string{"vendor", "", "/", "/class", "vendor.com/", "1vendor.com/class", "ven dor/class", "vendor-/class", "vendor.com/1class",
